@@ -1,0 +1,99 @@
+// SPDX-License-Identifier: Apache-2.0
+
+//go:build verif
+
+package pfcpiface
+
+// This file is compiled only with the build tag "verif". It gives the external
+// verification harness access to a few unexported pure functions and a
+// scheduling/observation hook. It adds no behaviour to the agent.
+
+// VerifPoint, when set, is called at named scheduling points.
+var VerifPoint func(name string, args ...interface{})
+
+func verifPoint(name string, args ...interface{}) {
+	if f := VerifPoint; f != nil {
+		f(name, args...)
+	}
+}
+
+// VerifTernaryRule mirrors portRangeTernaryRule.
+type VerifTernaryRule struct{ Port, Mask uint16 }
+
+// VerifProductRule mirrors portRangeTernaryCartesianProduct.
+type VerifProductRule struct{ SrcPort, SrcMask, DstPort, DstMask uint16 }
+
+// VerifPortRangeExpand calls portRange.asComplexTernaryMatches.
+func VerifPortRangeExpand(low, high uint16, strategy int) ([]VerifTernaryRule, error) {
+	rules, err := portRange{low: low, high: high}.asComplexTernaryMatches(RangeConversionStrategy(strategy))
+	if err != nil {
+		return nil, err
+	}
+
+	out := make([]VerifTernaryRule, 0, len(rules))
+	for _, r := range rules {
+		out = append(out, VerifTernaryRule{r.port, r.mask})
+	}
+
+	return out, nil
+}
+
+// VerifPortRangeTrivial calls portRange.asTrivialTernaryMatch.
+func VerifPortRangeTrivial(low, high uint16) (VerifTernaryRule, error) {
+	r, err := portRange{low: low, high: high}.asTrivialTernaryMatch()
+	return VerifTernaryRule{r.port, r.mask}, err
+}
+
+// VerifPortRangeProduct calls CreatePortRangeCartesianProduct.
+func VerifPortRangeProduct(srcLow, srcHigh, dstLow, dstHigh uint16) ([]VerifProductRule, error) {
+	rules, err := CreatePortRangeCartesianProduct(
+		portRange{low: srcLow, high: srcHigh}, portRange{low: dstLow, high: dstHigh})
+	if err != nil {
+		return nil, err
+	}
+
+	out := make([]VerifProductRule, 0, len(rules))
+	for _, r := range rules {
+		out = append(out, VerifProductRule{r.srcPort, r.srcMask, r.dstPort, r.dstMask})
+	}
+
+	return out, nil
+}
+
+// VerifFlowDesc is the parsed form of a flow description.
+type VerifFlowDesc struct {
+	Action, Direction string
+	Proto             uint8
+	SrcIP, SrcMask    uint32
+	DstIP, DstMask    uint32
+	SrcLow, SrcHigh   uint16
+	DstLow, DstHigh   uint16
+}
+
+// VerifParseFlowDesc calls parseFlowDesc.
+func VerifParseFlowDesc(flowDesc, ueIP string) (*VerifFlowDesc, error) {
+	ipf, err := parseFlowDesc(flowDesc, ueIP)
+	if err != nil {
+		return nil, err
+	}
+
+	r := &VerifFlowDesc{
+		Action: ipf.action, Direction: ipf.direction, Proto: ipf.proto,
+		SrcLow: ipf.src.ports.low, SrcHigh: ipf.src.ports.high,
+		DstLow: ipf.dst.ports.low, DstHigh: ipf.dst.ports.high,
+	}
+	if ipf.src.IPNet != nil {
+		r.SrcIP, r.SrcMask = ip2int(ipf.src.IPNet.IP), ipMask2int(ipf.src.IPNet.Mask)
+	}
+
+	if ipf.dst.IPNet != nil {
+		r.DstIP, r.DstMask = ip2int(ipf.dst.IPNet.IP), ipMask2int(ipf.dst.IPNet.Mask)
+	}
+
+	return r, nil
+}
+
+// VerifCalculateBitRates calls calculateBitRates.
+func VerifCalculateBitRates(mbr uint64, unit string) uint64 {
+	return calculateBitRates(mbr, unit)
+}
